@@ -158,6 +158,12 @@ func c16Years(c *ctx) {
 		// the same days asked again after the walk went past the year end (the last row is 1 January of the next year,
 		// which shares this year's lunar year): a day's stars are what they were
 		again := []obj{}
+		try(func() {
+			if y < 9998 {
+				s, _ := safeSolar(y+1, 1, 15, 12, 0, 0)
+				s.GetLunar().GetDayNineStar()
+			}
+		})
 		for i, r := range rows {
 			d := r["d"].([]int)
 			if r["p"].(int) != 0 || r["x"].(int) != 0 || !((d[1] == 2 && d[2] == 25) || (d[1] == 6 && d[2] == 15) || (d[1] == 10 && d[2] == 10) || (d[1] == 12 && d[2] == 31)) {
